@@ -205,6 +205,8 @@ def oracle(res, case, file0, ops, obs):
                 if isinstance(prev_file, dict) and len(prev_file["data"]) != 64:
                     if out != {"err": "encryption"}:
                         res.violate("C07:bad-size-accepted", "a key file of the wrong size was not rejected with an encryption error", where)
+                if prev_file == "unwritable" and out == "ok":
+                    res.violate("C07:created-wrong", "a key file that is missing and cannot be created: the open succeeded, the session runs on a key that was never stored", where)
                 if prev_file == "absent" and out == "ok":
                     if not (isinstance(f, dict) and f["data"] == o["key"] and len(o["key"]) == 64):
                         res.violate("C07:created-wrong", "a missing key file was not created with the 32 bytes used for the session", where)
